@@ -35,11 +35,11 @@ Definition ex_doc : document :=
                   SField None (nm "i") (at_ 3 3) []
                          [ SField None (nm "s") (at_ 3 7) [] [];
                            SInline (Some (nm "O")) (at_ 3 9) [] [SField (Some (nm "x")) (nm "n") (at_ 3 20) [] []] ];
-                  SField None (nm "u") (at_ 3 29) [DSkip (CVar (nm "v"))] [SField None n_typename (at_ 3 46) [] []] ];
+                  SField None (nm "u") (at_ 3 29) [DSkip (CVar (nm "v")) (at_ 3 31) (at_ 3 41)] [SField None n_typename (at_ 3 46) [] []] ];
      frags := [ {| fr_name := nm "F"; fr_cond := nm "Q";
                    fr_sels := [SField None (nm "o") (at_ 5 19) [] [SField None (nm "s") (at_ 5 23) [] []]] |} ] |}.
 
-Definition ex_env : env := [(nm "v", false)].
+Definition ex_env : env := [(nm "v", Some false)].
 
 Definition ex_W : outcome :=
   OObj (nm "Q")
